@@ -689,7 +689,9 @@ class SigmaNumber(SigmaType):
             if not isfinite(f):
                 raise ValueError("Invalid number")
             i = int(init_number)
-            if i == f:
+            if i == f or isinstance(init_number, (int, str)):
+                # An integer (or its text) is kept as it is: integers above 2**53 have no exact
+                # float representation and would be replaced by a neighbouring number.
                 self.number = i
             else:
                 self.number = f
